@@ -186,6 +186,29 @@ def run_config(ctx, rep, cfg):
                     rep.ok("C06.R3", inst, fsite(fn), "reads key-schedule fields %s like its siblings" % sorted(n), cfg=cn)
                 else:
                     rep.violation("C06.R3", inst, fsite(fn), "reads key-schedule fields %s, siblings read %s" % (sorted(n), [sorted(x) for _, x in live]), cfg=cn)
+    # ---- R4: scalar and vector copies of one permutation helper realise the same bit routing
+    from .routing_rules import helpers, table_str
+    H = helpers(prog)
+    byname = {}
+    for fk, h in H.items():
+        byname.setdefault(fk[1], []).append(h)
+    for nm, lst in sorted(byname.items()):
+        if len(lst) < 2:
+            continue
+        pure = [h for h in lst if h["table"] is not None]
+        if not pure:
+            continue        # not a permutation helper at all (e.g. MixColumns combines cells)
+        from collections import Counter
+        ref = Counter(h["table"] for h in pure).most_common(1)[0][0] if pure else None
+        for h in sorted(lst, key=lambda x: x["f"].key):
+            inst = construct(h["f"])
+            if h["table"] is None:
+                rep.violation("C06.R4", inst, fsite(h["f"]), "this copy of %s is not a pure bit permutation (its siblings are): the back ends using it compute something else" % nm, cfg=cn)
+            elif h["table"] == ref:
+                rep.ok("C06.R4", inst, fsite(h["f"]), "same routing %s as the %d other copies (%s)" % (table_str(h), len(lst) - 1, "vector" if h["vector"] else "scalar"), cfg=cn)
+            else:
+                rep.violation("C06.R4", inst, fsite(h["f"]), "this %s copy of %s routes %s but its siblings route %s: back ends disagree" %
+                              ("vector" if h["vector"] else "scalar", nm, table_str(h), table_str([x for x in pure if x["table"] == ref][0])), cfg=cn)
     # the advertised parallel_size of each parallel back end equals what its slot target processes
     from ..report import Report
     from . import c13
